@@ -1,1 +1,481 @@
-(* placeholder: to be written *)
+(** Executable model of the locking subsystem (property C09): energy-factory lock / unlock /
+    early-unlock / reduce, the penalty function, token-unstake's unbond queue and fee split.
+
+    Mirrors, function by function and guard by guard:
+      common/modules/math/src/lib.rs                          (linear_interpolation)
+      locked-asset/energy-factory/src/lock_options.rs         (is-listed, unlock_epoch_to_start_of_month)
+      locked-asset/energy-factory/src/lock_options_endpoints.rs (addLockOptions: sort, no duplicates, increasing percentages)
+      locked-asset/energy-factory/src/penalty.rs              (calculate_penalty_percentage_full_unlock)
+      locked-asset/energy-factory/src/unlock_with_penalty.rs  (getPenaltyAmount, partial percentage, unlockEarly, reduceLockPeriod)
+      locked-asset/energy-factory/src/lib.rs, extend_lock.rs, virtual_lock.rs   (lockTokens, unlockTokens, lockVirtual)
+      locked-asset/energy-factory/src/energy.rs               (only the BigUint field total_locked_tokens: its subtractions can abort)
+      locked-asset/energy-factory/src/unstake.rs              (depositUserTokens / depositFees / revertUnstake plumbing)
+      locked-asset/simple-lock/src/basic_lock_unlock.rs       (lock_tokens, unlock_tokens, unlock_tokens_unchecked)
+      locked-asset/token-unstake/src/{fees_handler,unbond_tokens,cancel_unstake}.rs
+      energy-integration/fees-collector/src/fees_accumulation.rs (depositSwapFees: burns the locked tokens it receives, accumulates the amount)
+    No proofs in this file. *)
+From MX Require Import Base.Prelude Gen.Params.
+
+Definition MAXP : Z := MAX_PENALTY_PERCENTAGE.               (* energy-factory *)
+Definition MAXPU : Z := UNSTAKE_MAX_PENALTY_PERCENTAGE.      (* token-unstake *)
+
+(** ------------------------------------------------------------------ math::linear_interpolation *)
+Definition lin_interp (min_in max_in cur min_out max_out : Z) : result Z :=
+  check negb ((cur <? min_in) || (max_in <? cur)) else EGuard;
+  do w1 <- sub_chk max_in cur;
+  do w2 <- sub_chk cur min_in;
+  do d <- sub_chk max_in min_in;
+  div_chk (min_out * w1 + max_out * w2) d.
+
+(** ------------------------------------------------------------------ lock options *)
+(** (lock_epochs, penalty_start_percentage), kept sorted by lock_epochs *)
+Definition opt := (Z * Z)%type.
+
+Definition start_of_month (e : Z) : Z := e - e mod EPOCHS_PER_MONTH.
+
+Definition is_listed (opts : list opt) (le : Z) : bool := existsb (fun o => fst o =? le) opts.
+
+Fixpoint insert_opt (o : opt) (l : list opt) : list opt :=
+  match l with
+  | [] => [o]
+  | h :: t => if fst o <=? fst h then o :: l else h :: insert_opt o t
+  end.
+Definition sort_opts (l : list opt) : list opt := fold_right insert_opt [] l.
+
+Fixpoint no_dup_epochs (l : list opt) : bool :=
+  match l with
+  | a :: ((b :: _) as t) => negb (fst a =? fst b) && no_dup_epochs t
+  | _ => true
+  end.
+
+Fixpoint valid_pcts (l : list opt) : bool :=
+  match l with
+  | a :: ((b :: _) as t) => (snd a <? snd b) && valid_pcts t
+  | _ => true
+  end.
+
+(** addLockOptions (also run by init).  Arguments are u64: negative values cannot be encoded. *)
+Definition add_lock_options (old new : list opt) : result (list opt) :=
+  check (Z.of_nat (length old + length new) <=? MAX_LOCK_OPTIONS) else EGuard;
+  check forallb (fun o => (EPOCHS_PER_YEAR <=? fst o) && (0 <=? snd o) && (snd o <=? MAXP)) new else EGuard;
+  let l := sort_opts (old ++ new) in
+  check negb (match l with [] => true | _ => false end) else EArith;      (* len() - 1 on an empty ArrayVec *)
+  check no_dup_epochs l else EGuard;
+  check valid_pcts l else EGuard;
+  Ok l.
+
+(** ------------------------------------------------------------------ penalty.rs *)
+Definition last_opt (opts : list opt) : opt := last opts (0, 0).
+
+(** the [for i in first_index..last_index] loop: first i with e_i <= x <= e_(i+1); both options stay
+    at LockOption::default() when the loop ends without a match *)
+Fixpoint find_seg (l : list opt) (x : Z) : opt * opt :=
+  match l with
+  | a :: ((b :: _) as t) => if (fst a <=? x) && (x <=? fst b) then (a, b) else find_seg t x
+  | _ => ((0, 0), (0, 0))
+  end.
+
+Definition pct_full (opts : list opt) (x : Z) : result Z :=
+  match opts with
+  | [] => Err EGuard                                                       (* "no lock options available" *)
+  | first :: rest =>
+      check (x <=? fst (last_opt opts)) else EGuard;                       (* "Invalid lock epochs" *)
+      let '(prev, next) :=
+        if negb (match rest with [] => true | _ => false end) && (fst first <? x)
+        then find_seg opts x
+        else ((0, 0), first) in
+      lin_interp (fst prev) (fst next) x (snd prev) (snd next)
+  end.
+
+(** unlock_with_penalty.rs: calculate_penalty_percentage_partial_unlock (u64 arithmetic) *)
+Definition pct_partial (opts : list opt) (prev new : Z) : result Z :=
+  do po <- pct_full opts prev;
+  do pn <- pct_full opts new;
+  do d <- sub_chk po pn;
+  do den <- sub_chk MAXP pn;
+  div_chk (d * MAXP) den.
+
+(** view getPenaltyAmount = calculate_penalty_amount *)
+Definition penalty_pct (opts : list opt) (prev new : Z) : result Z :=
+  check (0 <? prev) else EGuard;
+  check (new <? prev) else EGuard;
+  if new =? 0 then pct_full opts prev else pct_partial opts prev new.
+
+Definition penalty_amount (opts : list opt) (amt prev new : Z) : result Z :=
+  do pct <- penalty_pct opts prev new;
+  Ok (amt * pct / MAXP).
+
+(** ------------------------------------------------------------------ token ledger
+    One ledger for every ESDT balance the subsystem moves, as a log of signed deltas
+    (holder, token, delta).  token 0 = the base asset; token e >= 1 = the LOCKED meta-ESDT whose
+    attributes carry unlock_epoch = e (get_or_create_nonce_for_attributes: one nonce per unlock
+    epoch, the original token always being the base asset). *)
+Definition ledger := list (Z * Z * Z).
+
+Fixpoint tot (f : Z -> Z -> bool) (L : ledger) : Z :=
+  match L with
+  | [] => 0
+  | (h, t, d) :: r => (if f h t then d else 0) + tot f r
+  end.
+
+Definition bal (L : ledger) (h t : Z) : Z := tot (fun h' t' => (h' =? h) && (t' =? t)) L.
+Definition credit (L : ledger) (h t a : Z) : ledger := (h, t, a) :: L.
+(** outgoing transfer / burn: the VM aborts when the balance is insufficient *)
+Definition debit (L : ledger) (h t a : Z) : result ledger :=
+  check (a <=? bal L h t) else EGuard;
+  Ok ((h, t, - a) :: L).
+
+Definition is_base (h t : Z) : bool := t =? 0.
+Definition is_locked (h t : Z) : bool := 0 <? t.
+
+(** Holder ids: the token-unstake contract (escrow); users are any other id.  OWNER owns both
+    contracts; WLSC is the smart contract whitelisted for lockVirtual. *)
+Definition UNSTAKE : Z := 50.
+Definition WLSC : Z := 60.
+Definition OWNER : Z := 100.
+
+(** ------------------------------------------------------------------ state *)
+Record uentry := mkE {          (* token-unstake UnstakePair, with the owner of the queue it sits in *)
+  en_user : Z;
+  en_release : Z;               (* unlock_epoch = deposit epoch + unbond_epochs *)
+  en_epoch : Z;                 (* the locked token's own unlock epoch (its nonce) *)
+  en_lk : Z;                    (* locked_tokens.amount *)
+  en_un : Z                     (* unlocked_tokens.amount = locked amount - penalty *)
+}.
+
+Record cfg := mkCfg { c_opts : list opt; c_unbond : Z; c_burn : Z; c_paused : bool }.
+
+(** ghost counters: every ESDT mint / burn the contracts perform *)
+Record ghost := mkG {
+  g_bmint : Z;            (* base asset minted by unlockTokens and unlockEarly *)
+  g_bburn_lock : Z;       (* base asset burned by lockTokens *)
+  g_bburn_cancel : Z;     (* base asset burned by cancelUnbond *)
+  g_lmint : Z;            (* LOCKED minted (all paths) *)
+  g_lburn : Z;            (* LOCKED burned (all paths, the fees collector's burn included) *)
+  g_penburn : Z;          (* part of g_lburn: penalty burned by burn_penalty *)
+  g_emit : Z              (* part of g_lmint: LOCKED created by lockVirtual without burning base *)
+}.
+
+Record lst := mkL {
+  l_cfg : cfg;
+  l_now : Z;                    (* block epoch *)
+  l_led : ledger;               (* users' and the unstake contract's balances *)
+  l_tl : ledger;                (* energy entries: (user, 0, delta of total_locked_tokens) *)
+  l_q : list uentry;            (* all users' unbond queues, oldest first *)
+  l_fees : Z;                   (* fees collector: accumulatedFees(LOCKED), summed over weeks *)
+  l_g : ghost
+}.
+
+Definition set_cfg (s : lst) (c : cfg) : lst := mkL c (l_now s) (l_led s) (l_tl s) (l_q s) (l_fees s) (l_g s).
+Definition set_now (s : lst) (n : Z) : lst := mkL (l_cfg s) n (l_led s) (l_tl s) (l_q s) (l_fees s) (l_g s).
+Definition set_led (s : lst) (L : ledger) : lst := mkL (l_cfg s) (l_now s) L (l_tl s) (l_q s) (l_fees s) (l_g s).
+Definition set_tl (s : lst) (L : ledger) : lst := mkL (l_cfg s) (l_now s) (l_led s) L (l_q s) (l_fees s) (l_g s).
+Definition set_q (s : lst) (q : list uentry) : lst := mkL (l_cfg s) (l_now s) (l_led s) (l_tl s) q (l_fees s) (l_g s).
+Definition set_fees (s : lst) (f : Z) : lst := mkL (l_cfg s) (l_now s) (l_led s) (l_tl s) (l_q s) f (l_g s).
+Definition set_g (s : lst) (g : ghost) : lst := mkL (l_cfg s) (l_now s) (l_led s) (l_tl s) (l_q s) (l_fees s) g.
+
+Definition opts (s : lst) : list opt := c_opts (l_cfg s).
+Definition paused (s : lst) : bool := c_paused (l_cfg s).
+
+Definition g_add_bmint (g : ghost) (a : Z) := mkG (g_bmint g + a) (g_bburn_lock g) (g_bburn_cancel g) (g_lmint g) (g_lburn g) (g_penburn g) (g_emit g).
+Definition g_add_bburn_lock (g : ghost) (a : Z) := mkG (g_bmint g) (g_bburn_lock g + a) (g_bburn_cancel g) (g_lmint g) (g_lburn g) (g_penburn g) (g_emit g).
+Definition g_add_bburn_cancel (g : ghost) (a : Z) := mkG (g_bmint g) (g_bburn_lock g) (g_bburn_cancel g + a) (g_lmint g) (g_lburn g) (g_penburn g) (g_emit g).
+Definition g_add_lmint (g : ghost) (a : Z) := mkG (g_bmint g) (g_bburn_lock g) (g_bburn_cancel g) (g_lmint g + a) (g_lburn g) (g_penburn g) (g_emit g).
+Definition g_add_lburn (g : ghost) (a : Z) := mkG (g_bmint g) (g_bburn_lock g) (g_bburn_cancel g) (g_lmint g) (g_lburn g + a) (g_penburn g) (g_emit g).
+Definition g_add_penburn (g : ghost) (a : Z) := mkG (g_bmint g) (g_bburn_lock g) (g_bburn_cancel g) (g_lmint g) (g_lburn g) (g_penburn g + a) (g_emit g).
+Definition g_add_emit (g : ghost) (a : Z) := mkG (g_bmint g) (g_bburn_lock g) (g_bburn_cancel g) (g_lmint g) (g_lburn g) (g_penburn g) (g_emit g + a).
+
+(** elementary moves on the whole state *)
+Definition s_credit (s : lst) (h t a : Z) : lst := set_led s (credit (l_led s) h t a).
+Definition s_debit (s : lst) (h t a : Z) : result lst :=
+  do L <- debit (l_led s) h t a; Ok (set_led s L).
+Definition tl_of (s : lst) (u : Z) : Z := bal (l_tl s) u 0.
+Definition tl_add (s : lst) (u a : Z) : lst := set_tl s (credit (l_tl s) u 0 a).
+(** [total_locked_tokens -= amount] on a BigUint *)
+Definition tl_sub (s : lst) (u a : Z) : result lst :=
+  do _ <- sub_chk (tl_of s u) a; Ok (set_tl s (credit (l_tl s) u 0 (- a))).
+
+Definition init_cfg (os : list opt) (unbond burn : Z) : result cfg :=
+  do l <- add_lock_options [] os;
+  check (0 <=? unbond) else EGuard;
+  check (0 <=? burn) && (burn <=? MAXPU) else EGuard;                     (* token-unstake init: "Invalid percentage" *)
+  Ok (mkCfg l unbond burn false).
+
+(** deployment as the harness performs it: factory initialised and un-paused, unstake contract
+    and collector wired, users funded with base asset *)
+Definition init_state (c : cfg) (now : Z) (funds : list (Z * Z)) : lst :=
+  mkL c now (map (fun ub => (fst ub, 0, snd ub)) funds) [] [] 0 (mkG 0 0 0 0 0 0 0).
+
+(** ------------------------------------------------------------------ token-unstake: fees_handler.rs burn_penalty
+    [pen] LOCKED tokens held by the unstake contract: a share is burned, the rest goes to the fees
+    collector, which burns what it receives and adds the amount to accumulatedFees. *)
+Definition split_penalty (burnpct pen : Z) : result (Z * Z) :=
+  let b := pen * burnpct / MAXPU in
+  do rest <- sub_chk pen b;
+  Ok (b, rest).
+
+Definition burn_penalty (s : lst) (pen : Z) : result lst :=
+  do (b, rest) <- split_penalty (c_burn (l_cfg s)) pen;
+  let s1 := set_g s (g_add_penburn (g_add_lburn (l_g s) pen) b) in
+  Ok (set_fees s1 (l_fees s1 + rest)).
+
+(** ------------------------------------------------------------------ energy-factory endpoints *)
+Definition outs := list Z.
+
+(** A user id is never the escrow contract: token-unstake has no code path calling these endpoints. *)
+Definition is_user (c : Z) : bool := negb (c =? UNSTAKE).
+
+(** lockTokens paying the base asset.  Output: [unlock epoch of the LOCKED nonce; amount]. *)
+Definition ep_lock (s : lst) (c amt le dest : Z) : result (lst * outs) :=
+  check is_user c && is_user dest else EGuard;
+  check negb (paused s) else EState;
+  check is_listed (opts s) le else EGuard;
+  check (0 <? amt) else EGuard;
+  do s1 <- s_debit s c 0 amt;                                             (* the payment *)
+  let unlock := start_of_month (l_now s + le) in
+  check (l_now s <? unlock) else EGuard;
+  (* lock_base_asset: lock_tokens mints LOCKED 1:1, energy of dest grows; then the payment is burned *)
+  let s2 := tl_add s1 dest amt in
+  let s3 := s_credit s2 dest unlock amt in
+  Ok (set_g s3 (g_add_bburn_lock (g_add_lmint (l_g s3) amt) amt), [unlock; amt]).
+
+(** lockTokens paying a LOCKED token: extend to a listed option (destination must be the caller) *)
+Definition ep_extend (s : lst) (c e amt le : Z) : result (lst * outs) :=
+  check is_user c else EGuard;
+  check negb (paused s) else EState;
+  check is_listed (opts s) le else EGuard;
+  check (0 <? e) && (0 <? amt) else EGuard;
+  do s1 <- s_debit s c e amt;
+  let unlock := start_of_month (l_now s + le) in
+  check (l_now s <? unlock) else EGuard;
+  check (e <? unlock) else EGuard;                                        (* "New lock period must be longer" *)
+  do s2 <- tl_sub s1 c amt;                                               (* update_after_unlock_any *)
+  let s3 := tl_add s2 c amt in                                            (* add_after_token_lock *)
+  let s4 := s_credit s3 c unlock amt in
+  Ok (set_g s4 (g_add_lburn (g_add_lmint (l_g s4) amt) amt), [unlock; amt]).
+
+(** lockVirtual: only the whitelisted contract; LOCKED created without a base-asset payment
+    (reward emission).  Destination and energy address coincide (how farms / the fees collector use it). *)
+Definition ep_lock_virtual (s : lst) (c amt le dest : Z) : result (lst * outs) :=
+  check is_user dest else EGuard;
+  check negb (paused s) else EState;
+  check (0 <? amt) else EGuard;
+  check is_listed (opts s) le else EGuard;
+  check (c =? WLSC) else EPerm;
+  let unlock := start_of_month (l_now s + le) in
+  check (l_now s <? unlock) else EGuard;
+  let s2 := tl_add s dest amt in
+  let s3 := s_credit s2 dest unlock amt in
+  Ok (set_g s3 (g_add_emit (g_add_lmint (l_g s3) amt) amt), [unlock; amt]).
+
+(** unlockTokens: any number of LOCKED payments, each must have reached its unlock epoch *)
+Definition unlock_one (s : lst) (c : Z) (p : Z * Z) : result lst :=
+  let '(e, amt) := p in
+  check (e <=? l_now s) else EGuard;                                      (* "Cannot unlock yet" *)
+  check (0 <? amt) else EGuard;
+  do s1 <- tl_sub s c amt;                                                (* refund_after_token_unlock *)
+  Ok (set_g (s_credit s1 c 0 amt) (g_add_bmint (g_add_lburn (l_g s1) amt) amt)).
+
+Fixpoint pay_all (s : lst) (c : Z) (ps : list (Z * Z)) : result lst :=
+  match ps with
+  | [] => Ok s
+  | (e, amt) :: t =>
+      check (0 <? e) && (0 <? amt) else EGuard;
+      do s1 <- s_debit s c e amt; pay_all s1 c t
+  end.
+
+Fixpoint unlock_all (s : lst) (c : Z) (ps : list (Z * Z)) : result lst :=
+  match ps with
+  | [] => Ok s
+  | p :: t => do s1 <- unlock_one s c p; unlock_all s1 c t
+  end.
+
+Definition ep_unlock (s : lst) (c : Z) (ps : list (Z * Z)) : result (lst * outs) :=
+  check is_user c else EGuard;
+  check negb (paused s) else EState;
+  check negb (match ps with [] => true | _ => false end) else EGuard;
+  do s1 <- pay_all s c ps;
+  do s2 <- unlock_all s1 c ps;
+  Ok (s2, [fold_right (fun p acc => snd p + acc) 0 ps]).
+
+(** reduce_lock_period_common: returns the state after the energy update, the unlocked amount
+    (payment - penalty) and the new lock epochs *)
+Definition reduce_common (s : lst) (c e amt : Z) (new_le : option Z) : result (lst * Z * Z) :=
+  check negb (paused s) else EState;
+  check (l_now s <? e) else EGuard;                                       (* "Token can be unlocked already" *)
+  let new_lock :=
+    match new_le with
+    | Some le => let tentative := l_now s + le in le - (tentative - start_of_month tentative)
+    | None => 0
+    end in
+  let prev := e - l_now s in
+  check (new_lock <? prev) else EGuard;                                   (* "Invalid reduce choice" *)
+  do s1 <- tl_sub s c amt;                                                (* deplete_after_early_unlock *)
+  do pen <- penalty_amount (opts s) amt prev new_lock;
+  check (0 <? amt) else EGuard;
+  check (pen <? amt) else EGuard;                                         (* "No tokens remaining after penalty is applied" *)
+  Ok (s1, amt - pen, new_lock).
+
+(** unlockEarly: base asset for (amount - penalty) is minted now and parked, together with the
+    LOCKED payment, in the unstake contract *)
+Definition ep_unlock_early (s : lst) (c e amt : Z) : result (lst * outs) :=
+  check is_user c else EGuard;
+  check negb (paused s) else EState;
+  check (0 <? e) && (0 <? amt) else EGuard;
+  do s0 <- s_debit s c e amt;
+  do (s1, un, _) <- reduce_common s0 c e amt None;
+  let s2 := set_g s1 (g_add_bmint (l_g s1) un) in
+  let s3 := s_credit (s_credit s2 UNSTAKE e amt) UNSTAKE 0 un in
+  Ok (set_q s3 (l_q s3 ++ [mkE c (l_now s + c_unbond (l_cfg s)) e amt un]), []).
+
+(** reduceLockPeriod: penalty leaves at once through depositFees -> burn_penalty.
+    Output: [new unlock epoch; new LOCKED amount]. *)
+Definition ep_reduce (s : lst) (c e amt le : Z) : result (lst * outs) :=
+  check is_user c else EGuard;
+  check negb (paused s) else EState;
+  check is_listed (opts s) le else EGuard;
+  check (0 <? e) && (0 <? amt) else EGuard;
+  do s0 <- s_debit s c e amt;
+  do (s1, un, new_lock) <- reduce_common s0 c e amt (Some le);
+  let new_unlock := l_now s + new_lock in
+  do pen <- sub_chk amt un;
+  (* lock_tokens would hand the base-asset payment back unchanged if the new epoch were not in the
+     future; the factory holds no base asset, so the transaction cannot complete *)
+  check (l_now s <? new_unlock) else EGuard;
+  do burned <- sub_chk amt pen;
+  let s2 := set_g s1 (g_add_lburn (g_add_lmint (l_g s1) un) burned) in
+  do s3 <- (if 0 <? pen then burn_penalty s2 pen else Ok s2);
+  let s4 := tl_add s3 c un in
+  Ok (s_credit s4 c new_unlock un, [new_unlock; un]).
+
+(** ------------------------------------------------------------------ token-unstake endpoints *)
+Fixpoint q_first (q : list uentry) (c : Z) : option uentry :=
+  match q with
+  | [] => None
+  | en :: t => if en_user en =? c then Some en else q_first t c
+  end.
+
+Fixpoint q_remove_first (q : list uentry) (c : Z) : list uentry :=
+  match q with
+  | [] => []
+  | en :: t => if en_user en =? c then t else en :: q_remove_first t c
+  end.
+
+(** one iteration of claimUnlockedTokens's loop (burn_penalty is called after the loop in the code;
+    within one transaction the order is not observable) *)
+Definition claim_one (s : lst) (c : Z) (en : uentry) : result lst :=
+  do s1 <- s_debit s UNSTAKE (en_epoch en) (en_un en);                    (* esdt_local_burn(locked, unlocked.amount) *)
+  let s2 := set_g s1 (g_add_lburn (l_g s1) (en_un en)) in
+  do pen <- sub_chk (en_lk en) (en_un en);
+  do s3 <- (if 0 <? pen then
+              do s' <- s_debit s2 UNSTAKE (en_epoch en) pen; burn_penalty s' pen
+            else Ok s2);
+  do s4 <- s_debit s3 UNSTAKE 0 (en_un en);                               (* direct_multi to the caller *)
+  Ok (set_q (s_credit s4 c 0 (en_un en)) (q_remove_first (l_q s4) c)).
+
+Fixpoint claim_loop (n : nat) (s : lst) (c : Z) (acc : outs) : result (lst * outs) :=
+  match n with
+  | O => Ok (s, acc)
+  | S n' =>
+      match q_first (l_q s) c with
+      | None => Ok (s, acc)
+      | Some en =>
+          if l_now s <? en_release en then Ok (s, acc)
+          else do s' <- claim_one s c en; claim_loop n' s' c (acc ++ [en_un en])
+      end
+  end.
+
+Definition ep_claim (s : lst) (c : Z) : result (lst * outs) :=
+  check is_user c else EGuard;
+  do (s', o) <- claim_loop (Z.to_nat MAX_CLAIM_UNLOCKED_TOKENS) s c [];
+  check negb (match o with [] => true | _ => false end) else EGuard;      (* "Nothing to unbond" *)
+  Ok (s', o).
+
+(** cancelUnbond: every entry of the caller, whatever its age; the factory's revertUnstake requires
+    the factory not to be paused *)
+Definition cancel_one (s : lst) (c : Z) (en : uentry) : result lst :=
+  let s1 := tl_add s c (en_lk en) in                                      (* add_after_token_lock / add_energy_raw *)
+  do s2 <- s_debit s1 UNSTAKE 0 (en_un en);                               (* esdt_local_burn(unlocked) *)
+  let s3 := set_g s2 (g_add_bburn_cancel (l_g s2) (en_un en)) in
+  do s4 <- s_debit s3 UNSTAKE (en_epoch en) (en_lk en);
+  Ok (set_q (s_credit s4 c (en_epoch en) (en_lk en)) (q_remove_first (l_q s4) c)).
+
+Fixpoint cancel_loop (n : nat) (s : lst) (c : Z) (acc : outs) : result (lst * outs) :=
+  match n with
+  | O => Ok (s, acc)
+  | S n' =>
+      match q_first (l_q s) c with
+      | None => Ok (s, acc)
+      | Some en => do s' <- cancel_one s c en; cancel_loop n' s' c (acc ++ [en_epoch en; en_lk en])
+      end
+  end.
+
+Definition ep_cancel (s : lst) (c : Z) : result (lst * outs) :=
+  check is_user c else EGuard;
+  check negb (match q_first (l_q s) c with None => true | _ => false end) else EGuard;   (* "No tokens to unbond" *)
+  do (s', o) <- cancel_loop (length (l_q s)) s c [];
+  check negb (paused s) else EState;                                      (* revertUnstake: require_not_paused *)
+  Ok (s', o).
+
+(** ------------------------------------------------------------------ administration, time *)
+Definition ep_add_options (s : lst) (c : Z) (new : list opt) : result (lst * outs) :=
+  check (c =? OWNER) else EPerm;
+  do l <- add_lock_options (opts s) new;
+  Ok (set_cfg s (mkCfg l (c_unbond (l_cfg s)) (c_burn (l_cfg s)) (paused s)), []).
+
+Definition ep_set_burn (s : lst) (c pct : Z) : result (lst * outs) :=
+  check (c =? OWNER) else EPerm;
+  check (0 <=? pct) && (pct <=? MAXPU) else EGuard;
+  Ok (set_cfg s (mkCfg (opts s) (c_unbond (l_cfg s)) pct (paused s)), []).
+
+Definition ep_set_paused (s : lst) (c : Z) (b : bool) : result (lst * outs) :=
+  check (c =? OWNER) else EPerm;
+  Ok (set_cfg s (mkCfg (opts s) (c_unbond (l_cfg s)) (c_burn (l_cfg s)) b), []).
+
+Definition ep_advance (s : lst) (d : Z) : result (lst * outs) :=
+  check (0 <=? d) else EGuard;
+  Ok (set_now s (l_now s + d), []).
+
+Inductive lop :=
+| Lock (c amt le dest : Z)
+| Extend (c e amt le : Z)
+| LockVirtual (c amt le dest : Z)
+| Unlock (c : Z) (ps : list (Z * Z))
+| UnlockEarly (c e amt : Z)
+| Reduce (c e amt le : Z)
+| Claim (c : Z)
+| Cancel (c : Z)
+| AddOptions (c : Z) (new : list opt)
+| SetBurn (c pct : Z)
+| SetPaused (c : Z) (b : bool)
+| Advance (d : Z).
+
+Definition step (s : lst) (op : lop) : result (lst * outs) :=
+  match op with
+  | Lock c amt le dest => ep_lock s c amt le dest
+  | Extend c e amt le => ep_extend s c e amt le
+  | LockVirtual c amt le dest => ep_lock_virtual s c amt le dest
+  | Unlock c ps => ep_unlock s c ps
+  | UnlockEarly c e amt => ep_unlock_early s c e amt
+  | Reduce c e amt le => ep_reduce s c e amt le
+  | Claim c => ep_claim s c
+  | Cancel c => ep_cancel s c
+  | AddOptions c new => ep_add_options s c new
+  | SetBurn c pct => ep_set_burn s c pct
+  | SetPaused c b => ep_set_paused s c b
+  | Advance d => ep_advance s d
+  end.
+
+(** A failed transaction reverts: the runner keeps the old state. *)
+Definition step_total (s : lst) (op : lop) : lst :=
+  match step s op with Ok (s', _) => s' | Err _ => s end.
+
+Definition run (s : lst) (ops : list lop) : lst := fold_left step_total ops s.
+
+(** ------------------------------------------------------------------ views *)
+(** getUnlockedTokensForUser *)
+Definition view_queue (s : lst) (c : Z) : list uentry := filter (fun en => en_user en =? c) (l_q s).
+(** total base-asset / LOCKED held by users and the escrow *)
+Definition base_supply (s : lst) : Z := tot is_base (l_led s).
+Definition locked_supply (s : lst) : Z := tot is_locked (l_led s).
+Definition held_locked (s : lst) (h : Z) : Z := tot (fun h' t => (h' =? h) && (0 <? t)) (l_led s).
